@@ -68,7 +68,7 @@ ALL_MODS = ["aquacrop.timestep.run_single_timestep", "aquacrop.timestep.reset_in
     "cc_required_time adjust_CCx update_CCx_CDC HIadj_pre_anthesis HIadj_post_anthesis HIadj_pollination").split()]
 
 
-@harness("season_reset", modules=ALL_MODS, props=["C08", "C01", "C16"], configs=_configs, goals=["second-season-started"],
+@harness("season_reset", modules=ALL_MODS, props=["C08", "C01", "C06", "C13", "C16"], configs=_configs, goals=["second-season-started"],
          max_decisions=0)      # any branch on left-over state is already a dependence: end the symbolic run there and let the replay decide
 def h_reset(ctx, cfg):
     if cfg["crop"] == "Wheat":
@@ -115,6 +115,7 @@ def h_reset(ctx, cfg):
             setattr(st, k, v)
         ps = mm._param_struct
         st, ps = reset_initial_conditions(mm._clock_struct, st, ps, mm._weather, mm.crop)
+        counters.append((st.irr_cum, st.irr_net_cum, st.dap, st.gdd_cum))
         saved = (mm._init_cond, copy.copy(mm._clock_struct.__dict__))
         mm._init_cond = st
         out_backup = [np.array(t, copy=True) for t in (mm._outputs.water_flux, mm._outputs.water_storage, mm._outputs.crop_growth)]
@@ -137,6 +138,7 @@ def h_reset(ctx, cfg):
             mm._clock_struct.__dict__.update(saved[1])
             mm._outputs.water_flux, mm._outputs.water_storage, mm._outputs.crop_growth = out_backup
         return rows
+    counters = []
     m0 = ctx.mark()
     try:
         rows = first_day(hav)
@@ -152,6 +154,10 @@ def h_reset(ctx, cfg):
         if leaks:
             import sys
             sys.stderr.write(f"[season_reset] state not reset and read on day 1: {leaks}\n")
+    if counters:
+        c0 = counters[0]
+        ctx.prove("C06,C08,C13:seasonal irrigation totals, days after planting and degree days restart at zero when a season starts",
+                  And(*[(x == 0) for x in c0]))
     alts = [{n: 3.7 for n in names}, {n: 0.0 for n in names}]
     ctx.prove_independent("C08:the first day of a season does not depend on any state left by the previous season", names,
                           [r for r in rows], lambda alt: first_day({k: alt.get(f"prev_season.{k}", 0.0) for k in hav}), since=m0, alts=alts, suspected=suspected)
